@@ -57,6 +57,20 @@ def shards(tier, seed):
         if tier == "thorough":
             hist.append({"dim": 1, "vdim": 1, "batches": [{"coords": b1, "additive": False},
                                                           {"coords": b2, "additive": True}]})
+    # single batches of up to 4 (thorough: 5) points in any order, with and without duplicates,
+    # followed by a second overwriting batch: exhaustive in 1-d
+    big = _batches(1, 4 if tier == "quick" else 5)
+    for b1 in big:
+        if len(b1) >= 3:
+            hist.append({"dim": 1, "vdim": 1, "batches": [{"coords": b1, "additive": False}]})
+            hist.append({"dim": 1, "vdim": 1, "batches": [{"coords": [(1,)], "additive": False},
+                                                          {"coords": b1, "additive": len(b1) % 2 == 0}]})
+    for _ in range(60 if tier == "quick" else 600):
+        pts2 = list(itertools.product(range(3), repeat=2))
+        b = [rnd.choice(pts2) for _ in range(rnd.randint(3, 5))]
+        hist.append({"dim": 2, "vdim": 1, "batches": [{"coords": b, "additive": False},
+                                                      {"coords": [rnd.choice(pts2) for _ in range(3)],
+                                                       "additive": rnd.random() < 0.5}]})
     # three batches: the stored order differs from the sorted order only after two earlier batches
     singles = [[(i,)] for i in range(3)]
     for b1, b2 in itertools.product(singles, repeat=2):
